@@ -82,7 +82,211 @@ func (e *csEnv) reserves(ps []poolView, inD, outD string) (rin, rout int64, ok b
 	return p.T, p.S, true
 }
 
+// strange denoms: valid, outside the tracked universe (nobody holds any, no pool is named after
+// them): different case, a liquidity denom whose sequence is never reached
+var strangeDenoms = []string{"BTC", "lpt-9"}
+
+// anyDenom: a denom of ANY kind - standard, token, odd coin, liquidity denom, strange.
+func (e *csEnv) anyDenom(rng *rand.Rand) string {
+	ds := append(e.denoms(), strangeDenoms...)
+	return ds[rng.Intn(len(ds))]
+}
+
+// held: the denoms of which account a holds something, in the last observed state.
+func (e *csEnv) held(a string) []string {
+	var out []string
+	for _, d := range e.denoms() {
+		if e.balM(a, d) > 0 {
+			out = append(out, d)
+		}
+	}
+	return out
+}
+
+// heldOrAny: half of the time a denom the account really holds (an identifier that belongs to
+// another object: a foreign coin donated to an escrow, somebody's share token, an odd coin).
+func (e *csEnv) heldOrAny(rng *rand.Rand, a string) string {
+	if h := e.held(a); len(h) > 0 && rng.Intn(2) == 0 {
+		return h[rng.Intn(len(h))]
+	}
+	return e.anyDenom(rng)
+}
+
+// wrongTok: a denom for the token field of a one-sided message on the pool of poolDenom: mostly a
+// coin that the escrow holds without its being one of the two reserves, else any denom.
+func (e *csEnv) wrongTok(rng *rand.Rand, esc, poolDenom string) string {
+	var foreign []string
+	for _, d := range e.held(esc) {
+		if d != e.std && d != poolDenom {
+			foreign = append(foreign, d)
+		}
+	}
+	if len(foreign) > 0 && rng.Intn(3) > 0 {
+		return foreign[rng.Intn(len(foreign))]
+	}
+	return e.anyDenom(rng)
+}
+
+// probeEvent: NEGATIVE PROBING.  A message of a random type whose denom-valued fields are drawn
+// from every kind of denom, by a random user (often one without any share in the pool), against a
+// pool in whatever life-cycle state it is in (not created, funded, emptied, wedged, re-funded); or
+// a plain bank send of a foreign coin / share token / odd coin to an escrow.  Bounds are wide open
+// and deadlines valid, so that code which wrongly accepts the message goes through with it.  Most
+// of these are rejected by the unchanged code (the specification says which, and why); pools opened
+// on the odd coin and foreign donations are accepted and become part of the state.
+func (e *csEnv) probeEvent(rng *rand.Rand, ps []poolView) chain.M {
+	u := e.users[rng.Intn(len(e.users))]
+	dl := e.now() + 1 + int64(rng.Intn(3))
+	var p *poolView
+	if len(ps) > 0 && rng.Intn(5) > 0 {
+		p = &ps[rng.Intn(len(ps))]
+	}
+	poolDenom := e.anyDenom(rng) // counterparty field: an existing pool most of the time
+	esc := "esc-" + e.lpts[rng.Intn(len(e.lpts))]
+	if p != nil {
+		poolDenom, esc = p.denom, p.esc
+	}
+	small := func(n int) int64 { return int64(1 + rng.Intn(n)) }
+	switch rng.Intn(8) {
+	case 0:
+		ev := csEvent("AddLiquidity", u)
+		d := e.anyDenom(rng)
+		if rng.Intn(3) == 0 {
+			d = e.heldOrAny(rng, u)
+		}
+		ev["denom"], ev["amt"], ev["amt2"], ev["deadline"] = d, small(4), small(6)+3, dl
+		return ev
+	case 1:
+		// withdraw "liquidity" named by any coin the sender holds (or any denom at all)
+		ev := csEvent("RemoveLiquidity", u)
+		d := e.heldOrAny(rng, u)
+		switch rng.Intn(3) {
+		case 0: // an ordinary coin shaped like a liquidity denom
+			if len(e.odd) > 0 {
+				d = e.odd[rng.Intn(len(e.odd))]
+			}
+		case 1: // somebody's liquidity denom, with or without a pool
+			d = e.lpts[rng.Intn(len(e.lpts))]
+		}
+		amt := small(4)
+		if have := e.balM(u, d); have > 0 && rng.Intn(3) > 0 {
+			amt = 1 + rng.Int63n(have)
+			if amt > 6 {
+				amt = 6
+			}
+		}
+		ev["denom"], ev["amt"], ev["deadline"] = d, amt, dl
+		return ev
+	case 2:
+		// one-sided add naming a coin the escrow holds (foreign donation, share token) or any denom
+		ev := csEvent("AddUnilateral", u)
+		ev["denom"], ev["tok"], ev["amt"], ev["deadline"] = poolDenom, e.wrongTok(rng, esc, poolDenom), small(5), dl
+		if rng.Intn(6) == 0 { // the counterparty field itself of the wrong kind, the token plausible
+			ev["denom"], ev["tok"] = e.anyDenom(rng), pick2(rng, e.std, poolDenom)
+		}
+		return ev
+	case 3:
+		ev := csEvent("RemoveUnilateral", u)
+		amt := small(3)
+		if p != nil {
+			switch have := e.balM(u, p.lpt); rng.Intn(4) {
+			case 0:
+				amt = p.L // all liquidity (forbidden), by whoever
+			case 1:
+				amt = p.L + 1
+			default:
+				if have > 0 {
+					amt = 1 + rng.Int63n(have)
+				}
+			}
+		}
+		ev["denom"], ev["tok"], ev["amt"], ev["min1"], ev["deadline"] = poolDenom, e.wrongTok(rng, esc, poolDenom), max1(amt), int64(1), dl
+		if rng.Intn(6) == 0 {
+			ev["denom"], ev["tok"] = e.anyDenom(rng), pick2(rng, e.std, poolDenom)
+		}
+		return ev
+	case 4:
+		ev := csEvent("Swap", u)
+		inD, outD := e.heldOrAny(rng, u), e.anyDenom(rng)
+		if rng.Intn(2) == 0 {
+			outD = e.heldOrAny(rng, esc)
+		}
+		to := u
+		switch rng.Intn(7) {
+		case 0:
+			to = "module"
+		case 1:
+			to = "feepool"
+		case 2, 3:
+			to = e.users[rng.Intn(len(e.users))]
+		case 4:
+			// the escrow of a pool that takes no part in the order (a pool as recipient of its own
+			// order is not generated: the legs are reconstructed from the pools' balance deltas)
+			for _, q := range ps {
+				if q.denom != inD && q.denom != outD {
+					to = q.esc
+				}
+			}
+		}
+		buy := rng.Intn(2) == 0
+		ev["to"], ev["inDenom"], ev["outDenom"], ev["isBuy"], ev["deadline"] = to, inD, outD, buy, dl
+		ev["amt"], ev["amt2"] = small(4), int64(1)
+		if buy {
+			ev["amt"], ev["amt2"] = small(6)+6, small(2)
+		}
+		ev["hops"] = int64(1)
+		if inD != e.std && outD != e.std {
+			ev["hops"] = int64(2)
+		}
+		return ev
+	case 5, 6:
+		// plain bank send of whatever the user holds - foreign token, odd coin, share token - to an escrow
+		h := e.held(u)
+		if len(h) == 0 {
+			return nil
+		}
+		ev := csEvent("Donate", u)
+		d := h[rng.Intn(len(h))]
+		amt := small(2)
+		if have := e.balM(u, d); amt > have {
+			amt = have
+		}
+		ev["to"], ev["denom"], ev["amt"] = esc, d, amt
+		return ev
+	default:
+		// roles: somebody WITHOUT a share in the pool asks for it; somebody asks for more than exists
+		if p == nil {
+			return nil
+		}
+		var poor []string
+		for _, x := range e.users {
+			if e.balM(x, p.lpt) == 0 {
+				poor = append(poor, x)
+			}
+		}
+		if len(poor) > 0 {
+			u = poor[rng.Intn(len(poor))]
+		}
+		ev := csEvent("RemoveLiquidity", u)
+		amt := small(3)
+		if rng.Intn(3) == 0 {
+			amt = p.L + int64(rng.Intn(2))
+		}
+		ev["denom"], ev["amt"], ev["deadline"] = p.lpt, max1(amt), dl
+		if rng.Intn(2) == 0 {
+			ev = csEvent("RemoveUnilateral", u)
+			ev["denom"], ev["tok"], ev["amt"], ev["min1"], ev["deadline"] = p.denom, pick2(rng, e.std, p.denom), max1(amt), int64(1), dl
+		}
+		return ev
+	}
+}
+
 func (e *csEnv) randomEvent(rng *rand.Rand, ps []poolView) chain.M {
+	if rng.Intn(100) < e.probePct {
+		if ev := e.probeEvent(rng, ps); ev != nil {
+			return ev
+		}
+	}
 	u := e.users[rng.Intn(len(e.users))]
 	tok := e.tokens[rng.Intn(len(e.tokens))]
 	p := e.findPool(ps, tok)
